@@ -606,6 +606,7 @@ def link_generator(ctx, mutate=None, tag=""):
 
     # ---- I. identifiers as Python names (C07 / C14 name capture) ------------------------------------------------------
     out.extend(identifier_obligations(pre, cases))
+    out.extend(depth_obligations(pre))
 
     # ---- oracle -----------------------------------------------------------------------------------------------------
     if cases:
@@ -738,6 +739,63 @@ def skeleton_names(cases):
                 if isinstance(n, ast.FunctionDef) and n.name not in mine:
                     used.add(n.name)
     return used, bound
+
+
+CPYTHON_MAXINDENT = 100      # Parser/tokenizer.h MAXINDENT: "too many levels of indentation" from the 100th level on
+DEPTH_AGREED = 96            # exclusion bound of known finding KF-C14-indentation-limit
+
+
+def depth_obligations(pre):
+    """C14 quantifies over ALL grammatical experiments, and the grammar puts no bound on the nesting of `if` blocks, while
+    the generated text spends one indentation level per nested block on top of the layout's base depth (2 with the helper
+    nested, 1 with it exposed) and CPython refuses the 100th level.  The indentation actually produced is measured on the
+    real generator at a few depths; that it is `base + n` is the `_indent_depth` bookkeeping proved by the templates.
+    Full obligation (refuted on the pinned tree: a recorded known finding): for every depth both layouts are within the
+    limit or both are beyond it.  Restricted obligation (must hold): up to depth DEPTH_AGREED the evaluator and both module
+    texts build and agree, so anything that makes the layouts differ EARLIER is a new violation."""
+    probe = [1, 2, 3, 12, DEPTH_AGREED]
+    try:
+        rows = native.one({"cmd": "depth_probe", "depths": probe})
+    except Exception as e:      # noqa
+        return [Obl(pre + "module/nesting-depth-vs-cpython-indentation-limit", GFN + "generate", "template", "indentation probe", status=UNDECIDED, backend="native", detail="probe failed: %r" % (e,), props=("C14",))]
+    out = []
+    lin = {}
+    for k in ("nested", "exposed"):
+        ys = [r["indent_levels_" + k] for r in rows]
+        base = ys[0] - probe[0] if ys[0] is not None else None
+        lin[k] = base if base is not None and all(y == base + n for y, n in zip(ys, probe)) else None
+    n = z3.Int("n")
+    if lin["nested"] is None or lin["exposed"] is None:
+        out.append(Obl(pre + "module/indentation-is-base-plus-nesting", GFN + "generate", "template", "the deepest indentation of the generated text is base(layout) + nesting depth",
+                       status=REFUTED, backend="native+structural", detail="measured %s" % [(r["depth"], r["indent_levels_nested"], r["indent_levels_exposed"]) for r in rows], props=("C14",),
+                       model={"measured": rows}, meta={"replay": {"reproduced": False, "rows": rows}}))
+        return out
+    s = z3.Solver()
+    ok_n = lin["nested"] + n < CPYTHON_MAXINDENT
+    ok_e = lin["exposed"] + n < CPYTHON_MAXINDENT
+    s.add(n >= 0, ok_n != ok_e)
+    w = s.model()[n].as_long() if s.check() == z3.sat else None
+
+    def rep(ob):
+        ds = sorted({w, w - 1, w + 1} if w is not None else {97, 98, 99})
+        r = native.one({"cmd": "depth_probe", "depths": [d for d in ds if d >= 0]}, timeout=900)
+        bad = [x for x in r if not x["same"]]
+        return {"input": bad[:2], "reproduced": bool(bad), "all": [{k: v for k, v in x.items() if k != "text"} for x in r]}
+    out.append(Obl(pre + "module/nesting-depth-vs-cpython-indentation-limit", GFN + "generate", "template",
+                   "for every nesting depth n the two layouts are on the same side of CPython's limit of %d indentation levels (indentation = base + n, base %d nested / %d exposed)" % (CPYTHON_MAXINDENT, lin["nested"], lin["exposed"]),
+                   status=REFUTED if w is not None else DISCHARGED, backend="z3", detail="witness nesting depth %r" % (w,), props=("C14",),
+                   model={"nesting_depth": w, "base_nested": lin["nested"], "base_exposed": lin["exposed"], "cpython_maxindent": CPYTHON_MAXINDENT}, replay=rep))
+    s2 = z3.Solver()
+    s2.add(n >= 0, n <= DEPTH_AGREED, z3.Not(z3.And(ok_n, ok_e)))
+    early = s2.model()[n].as_long() if s2.check() == z3.sat else None
+    bad = [r for r in rows if not r["same"] or str(r["evaluator"]).startswith("compile:")]
+    out.append(Obl(pre + "module/layouts-within-the-indentation-limit-up-to-depth-%d" % DEPTH_AGREED, GFN + "generate", "template",
+                   "up to nesting depth %d both layouts stay below CPython's indentation limit (z3, from the measured bases), and at the probed depths %s the evaluator and both module texts build and agree "
+                   "(exclusion bound of known finding KF-C14-indentation-limit)" % (DEPTH_AGREED, probe),
+                   status=DISCHARGED if early is None and not bad else REFUTED, backend="z3+native", detail="first depth beyond the limit: %r; disagreeing probes: %s" % (early, [r["depth"] for r in bad]), props=("C14",),
+                   model={"early_depth": early, "disagreeing": [{k: v for k, v in r.items() if k != "text"} for r in bad]},
+                   meta={"replay": {"reproduced": bool(bad), "input": bad[:2]}}))
+    return out
 
 
 def identifier_obligations(pre, cases):
